@@ -12,6 +12,7 @@
 Require Import PG.Base.Bytes PG.Base.GoSlice PG.Base.Value.
 Require Import PG.C06.JsonbModel PG.C06.JsonbSpec PG.C06.JsonbLib PG.C06.JsonbInst PG.C06.JsonbProofs.
 Require Import PG.C06.JsonbFuelProofs PG.C06.JsonbSafeProofs PG.C06.JsonbHistoricProofs PG.C06.JsonbExamplesProofs.
+Require Import PG.C06.JsonbOffsetsProofs.
 
 (* Main theorem: any document, any depth, any container sizes (entry indexes beyond the 32-entry
    offset stride in the key half, the value half or both), empty containers anywhere, scalar or null
@@ -63,6 +64,65 @@ Theorem C06_oid_total : forall DecodeNumeric safeString s,
   exists v, DecodeType_jsonb DecodeNumeric safeString s = JOk v.
 Proof. exact DecodeType_jsonb_total. Qed.
 Print Assumptions C06_oid_total.
+
+(* ---- the offset walk of parseJSONB (repair of the overlap defect; C10's budget clause for jsonb.go) ----
+   parseJSONB rejects a container whose stored end offsets run backwards (offsets_ok = the walk
+   `run := 0; for e in entries { if HAS_OFF { if v < run {reject}; run = v } else { run += v } }`). *)
+
+(* The walk accepts every JEntry array PostgreSQL writes (so the round-trip theorems above are
+   unaffected): the encoder's stored end offsets are running totals. *)
+Theorem C06_offsets_enc : forall its : list item, items_ok its -> offsets_ok (jentries 0 0 its) 0 = true.
+Proof. exact entries_offsets_ok. Qed.
+Print Assumptions C06_offsets_enc.
+
+(* On ANY JEntry array endOffset / entryOffLen compute the forward running end offset [runoff]
+   (entry i = [runoff i, runoff (i+1)) of the data area), and the walk accepts exactly the arrays on
+   which the running end offset never decreases, i.e. on which no entry has a negative length. *)
+Theorem C06_offsets_iff : forall entries : list Z,
+  (forall idx base, (idx < length entries)%nat ->
+     endOffset entries (Z.of_nat idx) = Ok (runoff entries (S idx)) /\
+     entryOffLen entries (Z.of_nat idx) base = Ok (base + runoff entries idx, runoff entries (S idx) - runoff entries idx)) /\
+  (offsets_ok entries 0 = true <->
+   forall k, (k < length entries)%nat -> runoff entries k <= runoff entries (S k)).
+Proof.
+  intros entries. split; [|apply offsets_ok_iff].
+  intros idx base H. split; [apply endOffset_run|apply entryOffLen_run]; exact H.
+Qed.
+Print Assumptions C06_offsets_iff.
+
+(* For EVERY byte string and every decoder [rec] of nested containers (i.e. for every container at
+   every depth): if parseJSONB's body does not reject the container, then the JEntry words it read
+   from data[4:] — the array whose (offset, length) pairs entryOffLen(entries, i, 0) the loops of
+   parseJSONBArray / parseJSONBObject hand to decodeJEntry (and use for the keys) — give every entry
+   a non-negative offset and a NON-NEGATIVE length, and the ranges [off_i, off_i + len_i) of the
+   entries of the container are pairwise disjoint and in increasing order: a later entry starts at or
+   after the end of every earlier one.  No two children of one container cover the same bytes. *)
+Theorem C06_children_disjoint : forall DecodeNumeric rec data v,
+  parse_body DecodeNumeric rec data = JOk (Some v) ->
+  exists entries : list Z,
+    read_entries (length entries) data 4 = Ok entries /\
+    4 + 4 * Z.of_nat (length entries) <= len data /\
+    forall i, (i < length entries)%nat ->
+    exists off l,
+      entryOffLen entries (Z.of_nat i) 0 = Ok (off, l) /\ 0 <= off /\ 0 <= l /\
+      forall j, (i < j < length entries)%nat ->
+        exists off' l', entryOffLen entries (Z.of_nat j) 0 = Ok (off', l') /\ off + l <= off' /\ 0 <= l'.
+Proof. exact children_disjoint. Qed.
+Print Assumptions C06_children_disjoint.
+
+(* The linear size bound that follows, for EVERY byte string (any bytes, any capacity tail): the
+   decoder returns a value, and that value has at most len/4 + 1 nodes (containers + scalars + object
+   keys; [nodes]) — the JEntry words of distinct containers are distinct 4-byte words of the input, so
+   the number of decodeJEntry / parseJSONB calls is linear in the input size, not exponential.
+   Hypothesis: the numeric sub-decoder (C05) returns a scalar. *)
+Theorem C06_nodes_linear : forall DecodeNumeric,
+  (forall b, nodes (DecodeNumeric b) <= 1) ->
+  forall s, exists v, ParseJSONB DecodeNumeric s = JOk v /\ nodes v <= len s / 4 + 1.
+Proof.
+  intros DN HN s. destruct (ParseJSONB_total DN s) as [v Hv]. exists v. split; [exact Hv|].
+  exact (ParseJSONB_nodes DN HN s v Hv).
+Qed.
+Print Assumptions C06_nodes_linear.
 
 (* The unrepaired code (historic model) violated the property: D20 empty containers -> nil,
    D21 objects with >= 17 pairs, D22 null root -> raw bytes.  Witnesses by vm_compute. *)
